@@ -229,6 +229,11 @@ func (c *Config) handleSvcEndpointUpdate(svcName string, added, removed []*servi
 		validAdded = append(validAdded, endpoint)
 	}
 
+	// the service still has no endpoint list (only removals so far), there
+	// is nothing to announce.
+	if sw.Endpoints == nil {
+		return
+	}
 	if sw.Config == nil {
 		return
 	}
